@@ -376,7 +376,11 @@ def decide(prop, checks, parser, text, res, exc, over, hist, steps):
             rec.arm("grammar:ref-accepts")
             for p in ref[2]:
                 rec.arm("prod:" + p)
-            if out != "ok":
+            if out == "value-error" and G.over_int_limit(text):
+                # a well-formed literal longer than the interpreter's own int(str) limit: refusing it with
+                # ValueError and reading it exactly are both accepted (a wrong value is not: see operands)
+                rec.arm("grammar:int-limit-refused")
+            elif out != "ok":
                 rec.arm("grammar:impl-rejects-derivable")
                 bad("grammar/rejects-derivable", "a string the documented grammar derives is rejected", w["impl"])
             else:
@@ -452,8 +456,8 @@ def _grammar_values(prop, rec, text, res, ast, bad):
         bad(key, "the parsed tree does not have exactly the operands that were written", f"leaves {la} expected {lb}")
         return
     # literal types
-    ca = sorted((p[0], str(p[1])) for p in S.constants(sh))
-    cb = sorted((p[0], str(p[1])) for p in S.constants(ast))
+    ca = sorted((p[0], G.safe_str(p[1])) for p in S.constants(sh))
+    cb = sorted((p[0], G.safe_str(p[1])) for p in S.constants(ast))
     if ca != cb:
         bad("grammar/literal-type", "a literal is not coerced to int/float as documented", f"{ca} expected {cb}")
         return
